@@ -753,3 +753,40 @@ Lemma std_okb_spec std : std_okb std = true <-> std_ok std.
 Proof.
   unfold std_okb, std_ok. rewrite !andb_true_iff, !defbound_eqb_iff. tauto.
 Qed.
+
+(* ------------------------------------------------------------------ histories on one Const node *)
+(* nothing is remembered: every observation in a history is the observation of a fresh node holding the value
+   held at that moment *)
+Lemma history_fresh std : forall steps cur,
+  run_hist std cur steps = map (observe_const std) (held_at cur steps).
+Proof.
+  induction steps as [|st r IH]; intros cur; [reflexivity|].
+  destruct st as [e|]; cbn [run_hist held_at map]; [apply IH | now rewrite IH].
+Qed.
+Lemma observe_const_ok std : std_ok std -> forall e, obs_ok std e (observe_const std e).
+Proof.
+  intros Hstd e Hw t s Ht Hs. cbn in Ht, Hs |- *.
+  destruct (const_port_and_load_agree std e t Ht) as (Hp & _ & Hl & Hty).
+  split; [exact (Hty Hstd Hw s Hs)|]. now split.
+Qed.
+(* hence every observation of a history satisfies the property for the value held then *)
+Lemma history_inhabits std : std_ok std -> forall steps cur,
+  Forall2 (obs_ok std) (held_at cur steps) (run_hist std cur steps).
+Proof.
+  intros Hstd steps cur. rewrite history_fresh.
+  induction (held_at cur steps) as [|e r IH]; cbn [map]; constructor; [now apply observe_const_ok | exact IH].
+Qed.
+(* non-vacuity: a stubbed function Bool -> () is observed, finished to Bool -> Bool, observed again; the two
+   observations differ and each one is the fresh observation of the value of its moment *)
+Example history_example :
+  let stub := EFunc {| fs_in := [TUnitSum 2]; fs_out := []; fs_reqs := [] |} in
+  let done := EFunc {| fs_in := [TUnitSum 2]; fs_out := [TUnitSum 2]; fs_reqs := [] |} in
+  let steps := [HObs; HSet done; HObs; HObs] in
+  held_at stub steps = [stub; done; done] /\
+  map ho_type (run_hist ex_std stub steps) =
+    [Some (TFunc [TUnitSum 2] [] []); Some (TFunc [TUnitSum 2] [TUnitSum 2] []); Some (TFunc [TUnitSum 2] [TUnitSum 2] [])] /\
+  Forall2 (obs_ok ex_std) (held_at stub steps) (run_hist ex_std stub steps).
+Proof.
+  cbv zeta. split; [reflexivity|]. split; [reflexivity|]. apply history_inhabits.
+  destruct values_example as (H & _). exact H.
+Qed.
